@@ -392,6 +392,21 @@ def analyse(prog, tmp, r):
         return None, info
     if "Inconsistent contexts" in r.stderr or "Traceback" in r.stderr:
         return "the backend's proving step failed: %s" % r.stderr.strip().splitlines()[-1], info
+    # the schedule written by the splitting step: every call context once, pointing at the files of ITS function, and the glue
+    # lines of the equation file in the same order
+    if os.path.exists(os.path.join(tmp, "pysnark_schedule")):
+        sched = [ln.split() for ln in open(os.path.join(tmp, "pysnark_schedule")).read().splitlines() if ln.strip()]
+        want_sched = []
+        for ln in rd("pysnark_eqs").splitlines():
+            tk = ln.split()
+            if tk[:1] == ["[function]"]:
+                want_sched.append(["[function]", tk[2], "pysnark_eqs_" + tk[1], "pysnark_ek_" + tk[1], "pysnark_vk_" + tk[1]])
+            elif tk[:1] == ["[glue]"]:
+                want_sched.append(tk)
+        got_sched = [[os.path.basename(x) for x in ln] for ln in sched if ln[0] in ("[function]", "[glue]")]
+        if got_sched != want_sched:
+            bad_ = [(g, w) for g, w in zip(got_sched + [None] * len(want_sched), want_sched + [None] * len(got_sched)) if g != w][0]
+            return "the schedule written by the proving step has %r where the equation file calls for %r" % bad_, info
     for fn, ctxs in byfn.items():
         path = os.path.join(tmp, "pysnark_eqs_" + fn)
         if not os.path.exists(path):
